@@ -160,8 +160,8 @@ Print Assumptions no_silent_passthrough_partial.
 
 (* The tree under test has the repair 006e33c (table obligation on the regenerated [head_cfg]; a regression to the old
    shape breaks it, and the streams -- edit class (f), the lowerer-trace oracle -- then find the concrete `that`). *)
-Theorem c10_head_cfg_is_repaired : cfg_that_rejected head_cfg = true /\ cfg_parent_walk head_cfg = true.
-Proof. vm_compute. auto. Qed.
+Theorem c10_head_cfg_is_repaired : head_cfg = mkCfg true true true true.
+Proof. vm_compute. reflexivity. Qed.
 Print Assumptions c10_head_cfg_is_repaired.
 
 (* FULL STRENGTH at the head configuration: no identifier, qualified or not, in any scope, reaches SQL unresolved *)
@@ -357,7 +357,7 @@ Example c10_ex_type_names :
   /\ type_ref sc ([], [109;97;116;104]) = TErr ENotAType.
 Proof. vm_compute. auto 10. Qed.
 
-(* ---- case branches that static evaluation removes (finding C10-F7) ----
+(* ---- case branches that static evaluation removes (finding C10-F7, fixed by 3056744) ----
    Full statement: the value of such a branch is judged like the value of a live one,
      forall sc id, lower_ref_dead head_cfg sc id = lower_ref head_cfg sc id.
    TRUE with the check in static_eval.rs (cfg_dead_case_checked, proposed repair fixes/C10-F7-*.diff); without it what only
@@ -385,22 +385,21 @@ Theorem dead_branch_module_dropped : forall c sc n k,
 Proof. exact ScopeProofs.dead_branch_module_dropped. Qed.
 Print Assumptions dead_branch_module_dropped.
 
-Definition dead_branches_at (c : cfg) : Prop :=
-  if cfg_dead_case_checked c
-  then forall sc id, lower_ref_dead c sc id = lower_ref c sc id
-  else lower_ref_dead c ex_scope ([], s_date) = ODropped                         (* `case [false => date, ..]` compiles *)
-       /\ (forall sc id e, resolve sc id = RErr e -> lower_ref_dead c sc id = OErr e).
-
-Theorem c10_head_dead_branches : dead_branches_at head_cfg.
+(* FULL STRENGTH at the head configuration (repair 3056744) *)
+Theorem c10_head_dead_branches : forall sc id,
+  lower_ref_dead head_cfg sc id = lower_ref head_cfg sc id /\ lower_ref_dead head_cfg sc id <> ODropped.
 Proof.
-  unfold dead_branches_at. destruct (cfg_dead_case_checked head_cfg) eqn:E.
-  - intros. apply dead_branch_judged_like_a_live_one. exact E.
-  - split; [|intros; apply dead_branch_resolver_errors_stay; assumption].
-    apply (dead_branch_module_dropped head_cfg ex_scope s_date (CStd NModule) E); [vm_compute; reflexivity | auto].
+  intros. split; [apply dead_branch_judged_like_a_live_one | apply dead_branch_never_unchecked]; vm_compute; reflexivity.
 Qed.
 Print Assumptions c10_head_dead_branches.
 
-(* ---- a call of an std operator where a relation is required (finding C10-F4) ----
+(* the former witness (`case [false => date, ..]`) without and with the check *)
+Example c10_ex_dead_branch :
+  lower_ref_dead (mkCfg true true false false) ex_scope ([], s_date) = ODropped
+  /\ lower_ref_dead head_cfg ex_scope ([], s_date) = OErr ENotAValue.
+Proof. vm_compute. auto. Qed.
+
+(* ---- a call of an std operator where a relation is required (finding C10-F4, fixed by 830df3c) ----
    Full statement: it is a scalar argument, hence rejected.  TRUE with the test in validate_expr_type (cfg_std_call_rejected,
    proposed repair fixes/C10-F4-*.diff); without it the untyped call is taken for a table. *)
 Theorem std_call_where_relation_rejected : forall c f args named i,
@@ -415,19 +414,72 @@ Theorem std_call_taken_for_a_table : forall c, cfg_std_call_rejected c = false -
 Proof. exact ScopeProofs.std_call_taken_for_a_table. Qed.
 Print Assumptions std_call_taken_for_a_table.
 
-Definition std_calls_at (c : cfg) : Prop :=
-  if cfg_std_call_rejected c
-  then forall f args named i, nth_error (fs_params f) i = Some PRel -> nth_error args i = Some (seen c SStdCall) ->
-         length args = length (fs_params f) -> exists e, apply_fn f args named = AErr e
-  else match sig_of [[102;114;111;109]] with Some s => apply_fn s [seen c SStdCall] [] | None => AErr EUnknown end = Applied.   (* from (math.abs 3) *)
-
-Theorem c10_head_std_calls : std_calls_at head_cfg.
-Proof.
-  unfold std_calls_at. destruct (cfg_std_call_rejected head_cfg) eqn:E.
-  - intros. eapply std_call_where_relation_rejected; eassumption.
-  - rewrite (std_call_taken_for_a_table head_cfg E). vm_compute. reflexivity.
-Qed.
+(* FULL STRENGTH at the head configuration (repair 830df3c) *)
+Theorem c10_head_std_calls : forall f args named i,
+  nth_error (fs_params f) i = Some PRel -> nth_error args i = Some (seen head_cfg SStdCall) ->
+  length args = length (fs_params f) -> exists e, apply_fn f args named = AErr e.
+Proof. intros. eapply std_call_where_relation_rejected; try eassumption. vm_compute. reflexivity. Qed.
 Print Assumptions c10_head_std_calls.
+
+(* `from (math.abs 3)` without and with the test *)
+Example c10_ex_std_call :
+  match sig_of [[102;114;111;109]] with Some s => apply_fn s [seen (mkCfg true true true false) SStdCall] [] | None => AErr EUnknown end = Applied
+  /\ match sig_of [[102;114;111;109]] with Some s => apply_fn s [seen head_cfg SStdCall] [] | None => Applied end = AErr ENotARelation.
+Proof. vm_compute. auto. Qed.
+
+(* ---- a column excluded from a relation with unknown columns (finding C10-F6, open) ----
+   Full statement (FALSE of the faithful model and of the implementation): the exclusions the lineage records are honoured,
+     forall ex c sc id, lower_ref c sc id = lower_ref_x ex c sc id.
+   Characterised exactly: the two differ IF AND ONLY IF the reference is an inference, into an input of `this`, of a column
+   that input's `except` set lists -- then the property says Unknown and the implementation binds the column. *)
+Theorem excluded_column_refuted : forall c,
+  exists ex sc id, lower_ref c sc id <> lower_ref_x ex c sc id.
+Proof.
+  intro c. exists [(0%nat, [97])], (mkScope [] (mkFrame [mkInput [116] [] true] []) None [] []), ([], [97]).
+  apply ScopeProofs.excluded_characterised. vm_compute. reflexivity.
+Qed.
+Print Assumptions excluded_column_refuted.
+
+Theorem excluded_column_characterised : forall ex c sc id,
+  lower_ref c sc id <> lower_ref_x ex c sc id <-> excluded_inference ex sc id = true.
+Proof. exact ScopeProofs.excluded_characterised. Qed.
+Print Assumptions excluded_column_characterised.
+
+Theorem excluded_column_partial : forall c sc id, lower_ref_x [] c sc id = lower_ref c sc id.
+Proof. exact ScopeProofs.no_exclusions_no_difference. Qed.
+Print Assumptions excluded_column_partial.
+
+Theorem excluded_inference_is_a_binding : forall ex c sc id,
+  excluded_inference ex sc id = true ->
+  lower_ref_x ex c sc id = OErr EUnknown /\ exists i, lower_ref c sc id = OInferredColumn false i.
+Proof. exact ScopeProofs.excluded_inference_is_a_binding. Qed.
+Print Assumptions excluded_inference_is_a_binding.
+
+(* ---- the names of a tuple's fields (finding C10-F5, open) ----
+   Full statement (FALSE): a field loses its name only to a later field of the same slot (same relation prefix, or one of
+   the two without a prefix),  forall fs, unname fs = unname_spec fs.
+   Characterised exactly: the implemented rule (any later field with the same last name) differs IF AND ONLY IF some
+   field's name is taken by a later field of ANOTHER relation and by none of its own slot (dup_across).  Consequence of the
+   implemented rule: after any tuple at most one field answers to a bare name -- `select {x.id, y.id} | select {id}` cannot be
+   ambiguous, it means y.id. *)
+Theorem tuple_names_refuted : exists fs n,
+  unname fs <> unname_spec fs /\ named n (unname fs) = 1%nat /\ named n (unname_spec fs) = 2%nat.
+Proof. exists [(Some 0%nat, [105;100]); (Some 1%nat, [105;100])], [105;100]. vm_compute. split; [discriminate | auto]. Qed.
+Print Assumptions tuple_names_refuted.
+
+Theorem tuple_names_characterised : forall fs, unname fs = unname_spec fs <-> dup_across fs = false.
+Proof. exact ScopeProofs.unname_characterised. Qed.
+Print Assumptions tuple_names_characterised.
+
+Theorem tuple_bare_name_never_ambiguous : forall n fs, (named n (unname fs) <= 1)%nat.
+Proof. exact ScopeProofs.named_unname_le. Qed.
+Print Assumptions tuple_bare_name_never_ambiguous.
+
+(* `derive {a = a + 1}` over input column a (the intended use of the rule): both rules agree *)
+Example c10_ex_tuple_override :
+  dup_across [(Some 0%nat, [97]); (Some 0%nat, [98]); (None, [97])] = false
+  /\ unname [(Some 0%nat, [97]); (Some 0%nat, [98]); (None, [97])] = [None; Some (Some 0%nat, [98]); Some (None, [97])].
+Proof. vm_compute. auto. Qed.
 
 (* ---- every std function checks its arguments ----
    The signature table is regenerated from std.prql; the generic theorems instantiate to EVERY entry, and the check calls
